@@ -76,7 +76,7 @@ type group struct {
 	Rows  []Row
 	Trunc bool
 	Until string // text of the hex column on the `*` row
-	Name  string // tree column of the first line of the group
+	Name  string // tree column of the value's line
 	Perr  string
 }
 
@@ -84,10 +84,10 @@ type group struct {
 // a root/format value (the only text allowed in the hex column of a row without an address).
 func rowsOf(ls []line, L int, bar rune, hexHeader, ascHeader string) group {
 	g := group{Rows: []Row{}}
-	if len(ls) > 0 {
-		g.Name = ls[0].tree
-	}
 	for _, l := range ls {
+		if g.Name == "" {
+			g.Name = l.tree // the value's own line: the first one with a tree column
+		}
 		a := strings.TrimSpace(l.addr)
 		hx, as := []rune(l.hex), []rune(l.asc)
 		switch {
